@@ -1101,7 +1101,9 @@ impl<'a> Sim<'a> {
                 if self.b.open && (self.state() == "Halted" || self.state() == "PendingDisconnect") { self.close(); }
                 if self.dead { return; }
                 if !self.b.open {
-                    if self.state() == "Halted" { let t = self.t; self.guarded("connection_closed", |e| e.connection_closed(t)); self.completions("close"); self.emit_state(); }
+                    // the engine halted without a connection from the broker's point of view (a reset while connected):
+                    // it still has to be told that the connection is gone - as a recorded Close call like any other
+                    if self.state() == "Halted" { self.close(); }
                     self.open(30000);
                 }
                 self.step(&Step::Quiesce {});
